@@ -202,6 +202,9 @@ async fn settle(sim: &mut Sim, step: &mut Vec<Value>) {
         for i in 0..sim.nodes.len() {
             while let Some(cmd) = sim.nodes[i].driver.verif_try_recv_local_cmd() {
                 progress = true;
+                if let LocalSwarmCmd::RemoveFailedLocalRecord { key } = &cmd {
+                    step.push(json!({"node": i, "write_failed": build::key_name(&sim.reg, key.as_ref())}));
+                }
                 if let LocalSwarmCmd::PutLocalRecord { record } = &cmd {
                     // the point where the driver copies the store's range into the fetcher
                     step.push(json!({"node": i, "put_local": build::key_name(&sim.reg, record.key.as_ref())}));
@@ -572,6 +575,19 @@ async fn run_case_async(case: &Value) -> Value {
                 eff["before"] = json!(before);
                 eff["after"] = json!(after);
                 eff["threshold"] = json!(ant_networking::verif_hooks::record_store::MAX_RECORDS_COUNT / 10);
+            }
+            "break_disk" | "fix_disk" => {
+                // make node `node`'s record-store directory unusable (a plain file takes its place), so that the
+                // store's spawned disk writes fail and it sends RemoveFailedLocalRecord; `fix_disk` puts it back
+                let i = op["node"].as_u64().unwrap() as usize;
+                let dir = sim.nodes[i]._dir.path().join("record_store");
+                let off = sim.nodes[i]._dir.path().join("record_store.off");
+                let r = if op["op"].as_str() == Some("break_disk") {
+                    std::fs::rename(&dir, &off).and_then(|_| std::fs::write(&dir, b"not a directory"))
+                } else {
+                    std::fs::remove_file(&dir).and_then(|_| std::fs::rename(&off, &dir))
+                };
+                step.push(json!({"node": i, "disk": format!("{r:?}")}));
             }
             "hold_local" => {
                 let _ = sim.hold_local.insert(op["node"].as_u64().unwrap() as usize);
